@@ -225,7 +225,7 @@ CLASS_OF = {"dense": "QDense", "conv1d": "QConv1D", "conv2d": "QConv2D",
 # builder (C18 sequential stacks)
 
 
-def build_stack(case):
+def _build_stack(case):
   """Functional model Input -> layers...; layer names are 'L<i>'.
   Returns (model, shapes) where shapes[i] is the input shape of layer i."""
   import qkeras  # pylint: disable=g-import-not-at-top
@@ -418,7 +418,7 @@ def dag_shapes(case):
   return ins, outs
 
 
-def build_dag(case):
+def _build_dag(case):
   import qkeras  # pylint: disable=g-import-not-at-top
   import tensorflow as tf  # pylint: disable=g-import-not-at-top
   from vf import core  # pylint: disable=g-import-not-at-top
@@ -510,3 +510,27 @@ def build_dag(case):
   sinks = [i for i in range(len(case["nodes"])) if i not in used]
   model = tf.keras.Model(x_in, [tensors[i] for i in sinks])
   return model, ins, outs, sinks
+
+
+def _with_retry(fn, case):
+  """Keras model construction is a precondition, not the thing under test.
+  Seen once (two workers of one run, first model of the process): autograph
+  converted QDense.__init__ and died on the zero-argument super()
+  ("KeyError: '__class__'"); the same case builds fine afterwards, so the
+  construction is retried once in a fresh Keras session."""
+  try:
+    return fn(case)
+  except RuntimeError as e:
+    if "__class__" not in str(e):
+      raise
+    import tensorflow as tf  # pylint: disable=g-import-not-at-top
+    tf.keras.backend.clear_session()
+    return fn(case)
+
+
+def build_stack(case):
+  return _with_retry(_build_stack, case)
+
+
+def build_dag(case):
+  return _with_retry(_build_dag, case)
